@@ -13,7 +13,7 @@ Commands
 * `c15.arith <mul|div|add|sub> <factor> <p> <tolData> <tolUnits> | <in> | <out or ERR>` →
   `model=<neuron or ERR> corr=<ok|diff:fields> phys=<1|0|na> back=<1|0|na>`
   (`phys`: `samePhysB` of input and the implementation's output — the property checker of
-  `Props.C15.samePhysB_sound`; `back`: undoing the operation on the implementation's output with the model
+  `Props.C15.samePhysB_sound` — with the larger of the two tolerances, since pint's unit magnitudes are rounded; `back`: undoing the operation on the implementation's output with the model
   gives back the input)
 * `c15.convert <tgt> <p> <tolData> <tolUnits> | <in> | <out or ERR>` → same shape, `back=` is
   `unit=<1|0>` (output unit has the physical value of one target unit)
@@ -159,7 +159,7 @@ def runArith (op : String) (f : Factor) (p : Int) (tolD tolU : Rat) (x : Neuron)
   let scaling := op == "mul" || op == "div"
   let radii := decide (f.rad = f.xyz.x)
   let phys := match out with
-    | some o => if scaling then b01 (samePhysB tolD radii x o) else "na"
+    | some o => if scaling then b01 (samePhysB (if tolD < tolU then tolU else tolD) radii x o) else "na"
     | none => "na"
   -- undo the operation on the implementation's output (returning to the input's prefix)
   let back := match out with
